@@ -376,6 +376,11 @@ func goid() int64 {
 }
 
 func (s *Sim) spawn(name string, f func()) *Task {
+	if len(s.tasks) >= maxTasks && s.cur != nil {
+		// a loop that starts goroutines without end: the run is over its budget (no run of correct code starts
+		// more than a few dozen)
+		s.runaway(s.cur)
+	}
 	t := &Task{Idx: len(s.tasks), Name: name, sim: s, wake: make(chan struct{}), state: Parked}
 	if s.pctChange != nil {
 		t.prio = int64(s.next64()>>2) + 1000
@@ -441,6 +446,8 @@ func (s *Sim) park(t *Task, pred func() bool, desc string) {
 	s.mu.Unlock()
 	<-t.wake
 }
+
+const maxTasks = 20000
 
 // runaway ends a run whose tasks have passed far more preemption points than any run of correct code does (a loop that
 // never ends and never gives up the baton, e.g. a spin on a condition nothing changes any more): the run is over its
